@@ -598,6 +598,7 @@ def shapes(tier):
         for inner in bi:
             out.append(u.format("(" + inner.format("a", "b") + ")"))
     # a quantity used again after it was an argument of min/max (arguments must not be modified), and the names t / dt
+    out += ["a//b", "a%b", "(a//b)*b+a%b", "a//2+b"]
     out += ["max(a,b)-a", "a-min(a,b)", "(a+max(a,b,c))/2", "min(a,b)*a+max(a,b)", "a*t", "1-(1-a)*dt", "max(t,dt)+a", "t/dt"]
     out += ["min(1,a/b)", "max(0,1-a/b)", "exp(-a/b)", "a/b/c", "a/(b/c)", "max(a,b,c)", "min(a,b,c,d)", "pop:a+b", "a/b+c/d", "-(a/b)", "(a+b)/(a+b)", "2*a/3", "a/2.5", "0/a", "a/(b-b)"]
     if tier != "quick":
@@ -646,6 +647,18 @@ def spec_eval(env, src, vals):
                 return l * l if r == 2 else None
             if isinstance(n.op, A.Div):
                 return sdiv(l, r)
+            if isinstance(n.op, (A.FloorDiv, A.Mod)):
+                # ordinary floor division / remainder (no 0/0 rule: these are not rewritten); the divisor is non-zero
+                env.assume(env.b(r != 0) if env.symbolic else (r != 0), "domain: the divisor of // and % is non-zero")
+                if env.symbolic:
+                    from vsym.core import is_sym, SR
+                    import z3 as _z3
+                    from vsym.core import lift as _lift
+
+                    fl = SR(_z3.ToReal(_z3.ToInt(_lift(l) / _lift(r)))) if (is_sym(l) or is_sym(r)) else float(__import__("math").floor(l / r))
+                else:
+                    fl = float(__import__("math").floor(l / r))
+                return fl if isinstance(n.op, A.FloorDiv) else l - fl * r
         if isinstance(n, A.Compare):
             l, r = ev(n.left), ev(n.comparators[0])
             op = n.ops[0]
